@@ -319,8 +319,11 @@ func (session *BaseInSession) handleRtcpPacket(b []byte, rAddr *net.UDPAddr) err
 			rrBuf = session.audioRrProducer.Produce(sr.GetMiddleNtp())
 			session.mu.Unlock()
 			if rrBuf != nil {
+				// 注意，sr中的ssrc来自对端，可能和一路没有setup（或者不存在）的流对应上，此时对应的连接是nil
 				if rAddr != nil {
-					_ = session.audioRtcpConn.Write2Addr(rrBuf, rAddr)
+					if session.audioRtcpConn != nil {
+						_ = session.audioRtcpConn.Write2Addr(rrBuf, rAddr)
+					}
 				} else {
 					_ = session.cmdSession.WriteInterleavedPacket(rrBuf, session.audioRtcpChannel)
 				}
@@ -332,7 +335,9 @@ func (session *BaseInSession) handleRtcpPacket(b []byte, rAddr *net.UDPAddr) err
 			session.mu.Unlock()
 			if rrBuf != nil {
 				if rAddr != nil {
-					_ = session.videoRtcpConn.Write2Addr(rrBuf, rAddr)
+					if session.videoRtcpConn != nil {
+						_ = session.videoRtcpConn.Write2Addr(rrBuf, rAddr)
+					}
 				} else {
 					_ = session.cmdSession.WriteInterleavedPacket(rrBuf, session.videoRtcpChannel)
 				}
